@@ -50,13 +50,13 @@ class TimeActiveDecorator(TriggerHandlerDecorator, AutoKwargsDecorator):
 
             # all specifications are checked together: at least one positive (if any) and no negated one matches
             _LOGGER.debug("time_active %s now %s, %s", self.args, now, self)
-            if await trigger.TrigTime.timer_active_check(self.args, now, self.dm.startup_time):
-                self.last_trig_time = time.monotonic()
-                return True
-            return False
+            return bool(await trigger.TrigTime.timer_active_check(self.args, now, self.dm.startup_time))
 
-        self.last_trig_time = time.monotonic()
         return True
+
+    def dispatch_accepted(self, data: DispatchData) -> None:
+        """Remember the time of the last successful trigger: hold_off counts from here."""
+        self.last_trig_time = time.monotonic()
 
 
 class TimeTriggerDecorator(TriggerDecorator):
